@@ -134,5 +134,5 @@ def single_key_edits(j):
                     if nd[k] is None:
                         continue
                     nd[k] = None
-                out.append((op + ':sweep', put(j, dp, nd)))
+                out.append((op + ':sweep' + (':object' if isinstance(d[k], dict) else ''), put(j, dp, nd)))
     return out
